@@ -80,6 +80,21 @@ def _events_for(N, n, src, rng):
                    "res": ab.sset(r), "src": src}
     acc = [w for w in U.words_upto(N.Sigma, n) if nfa_accepts_word(N, w)]
     yield {"op": "accepts_all", "kind": "nfa", "fa": ab.nfa(N), "n": n, "accepted": ab.words(acc), "src": src}
+    # history: the same object is changed in place (one target of one move replaced, so all sizes stay
+    # the same) and asked again
+    keys = [k for k, v in N.delta.items() if v]
+    if keys and len(Q) >= 2 and "mut" not in src:
+        k = keys[rng.randrange(len(keys))]
+        old = sorted(N.delta[k])[0]
+        new = [q for q in Q if q not in N.delta[k]]
+        if new:
+            N.delta[k].discard(old)
+            N.delta[k].add(new[rng.randrange(len(new))])
+            cases2 = [{"arg": [ab.enc(q)], "res": ab.sset(N.E(q))} for q in Q]
+            yield {"op": "eclose", "fa": ab.nfa(N), "cases": cases2, "src": dict(src, mut=1)}
+            acc = [w for w in U.words_upto(N.Sigma, n) if nfa_accepts_word(N, w)]
+            yield {"op": "accepts_all", "kind": "nfa", "fa": ab.nfa(N), "n": n, "accepted": ab.words(acc),
+                   "src": dict(src, mut=1)}
 
 
 def build(src):
